@@ -37,6 +37,14 @@ pub fn unhex(s: &str) -> Vec<u8> {
 
 pub fn dispatch(t: &[&str]) -> String {
     None.or_else(|| crate::ops_c29::dispatch(t))
+        .or_else(|| crate::ops_c12c13::dispatch(t))
+        .or_else(|| crate::ops_c14::dispatch(t))
+        .or_else(|| crate::ops_c07::dispatch(t))
+        .or_else(|| crate::ops_c15::dispatch(t))
+        .or_else(|| crate::ops_c32::dispatch(t))
+        .or_else(|| crate::ops_c16::dispatch(t))
+        .or_else(|| crate::ops_c24::dispatch(t))
+        .or_else(|| crate::ops_c25::dispatch(t))
         // ADD-OPS-HERE (one `.or_else(|| crate::ops_cNN::dispatch(t))` line per module)
         .unwrap_or_else(|| "bad-op".into())
 }
